@@ -1,7 +1,8 @@
 (* C17 — the bundled country and bank data are internally consistent.
    The predicates are Spec/RegistrySpec.v; they are evaluated on whatever data the tree bundles now. *)
 From Schwifty Require Import Lib.Base Lib.Lit Model.Clean Model.Data Model.Iban Model.Bban Model.Lookup Spec.Iso13616 Spec.Iso9362 Spec.RegistrySpec.
-From Schwifty Require Import Proofs.CleanFacts Proofs.IbanFacts Proofs.IbanTheorems Proofs.BankFacts Proofs.GenObligations.
+From Schwifty Require Import Proofs.CleanFacts Proofs.IbanFacts Proofs.IbanTheorems Proofs.BankFacts Proofs.GenObligations
+  Proofs.GenerateFacts Proofs.GenerateTotal.
 From Schwifty Require Import Gen.Env Gen.IbanData Gen.IbanCfg Gen.Banks.
 From Coq Require Import String.
 
@@ -10,6 +11,14 @@ Proof. split; vm_cast_no_check (eq_refl true). Qed.
 
 Theorem C17_banks : forallb (wf_bank the_table iso3166) the_banks = true.
 Proof. vm_cast_no_check (eq_refl true). Qed.
+
+(* national algorithms read only fields the country defines: for every country with a registered default algorithm, the
+   fields the algorithm reads are components of the table, the classes at their positions are what its arithmetic needs -
+   including non-emptiness where a field is converted on its own (France: bank, branch and account code) - and the
+   check-digit field is absent or has the width the algorithm computes.  (total_row_ok / shape_row_ok are the row predicates
+   the totality and shape theorems of IBAN.generate rest on.) *)
+Theorem C17_algorithm_fields : forallb total_row_ok the_table = true /\ forallb shape_row_ok the_table = true.
+Proof. exact (conj gen_total_obl gen_shape_obl). Qed.
 
 (* spelled out for one row / one entry *)
 Corollary C17_country : forall r, In r the_table -> wf_country r = true.
